@@ -2243,6 +2243,7 @@ def convert_squared_difference(op, arch, nng):
         # Convert ifm to 32 bit
         ifm_32bit_shifted = ifm.clone(suffix="_ifm_32bit_shifted", set_unique=True)
         ifm_32bit_shifted.dtype = DataType.int32
+        ifm_32bit_shifted.values = None  # (the input can be a constant, the result is not)
         ifm_32bit_shifted.quantization = identity_quant
         cast_op = create_cast_op(op.name + "_ifm_32bit_shifted", ifm, ifm_32bit_shifted)
         # Use explicit scaling (multiplier) for the left shift
@@ -2252,6 +2253,7 @@ def convert_squared_difference(op, arch, nng):
         # 32 bit Mul op do not scale the value so the input has to be multiplied with the "multiplier" calculated above
         ifm_scaled = ifm.clone(suffix="_scaled", set_unique=True)
         ifm_scaled.dtype = DataType.int32
+        ifm_scaled.values = None  # (the input can be a constant, the result is not)
         ifm_scaled.quantization = identity_quant
         mul_op = Operation(Op.Mul, op.name + "_scaled_input1")
         mul_op.add_input_tensor(ifm_32bit_shifted)
@@ -2265,6 +2267,7 @@ def convert_squared_difference(op, arch, nng):
         # Convert ifm2 to 32 bit
         ifm2_32bit_shifted = ifm2.clone(suffix="_ifm2_32bit_shifted", set_unique=True)
         ifm2_32bit_shifted.dtype = DataType.int32
+        ifm2_32bit_shifted.values = None  # (the input can be a constant, the result is not)
         ifm2_32bit_shifted.quantization = identity_quant
         cast_op = create_cast_op(op.name + "_ifm2_32bit_shifted", ifm2, ifm2_32bit_shifted)
         # Use explicit scaling (multiplier) for the left shift
@@ -2274,6 +2277,7 @@ def convert_squared_difference(op, arch, nng):
         # 32 bit Mul op do not scale the value so input has to be multiplied with the "multiplier" calculated above
         ifm2_scaled = ifm2.clone(suffix="_scaled", set_unique=True)
         ifm2_scaled.dtype = DataType.int32
+        ifm2_scaled.values = None  # (the input can be a constant, the result is not)
         ifm2_scaled.quantization = identity_quant
         mul_op = Operation(Op.Mul, op.name + "_scaled_input2")
         mul_op.add_input_tensor(ifm2_32bit_shifted)
